@@ -6,6 +6,7 @@
 #include <set>
 #include <string>
 #include <vector>
+#include <memory>
 
 #include <ipr/impl>
 
@@ -60,13 +61,16 @@ namespace {
       int t;                       // index into the type pool
       std::vector<int> masks;      // successive qualification requests (1..7)
       int direct_first;            // request get_qualified(union,T) before the chain (1) or only after (0)
-      int noise;                   // interleave unrelated constructions (1) or not (0)
+      int noise;                   // 0 nothing else happens; 1 unrelated constructions in between; 2 a second Lexicon, alive, makes every request of the
+                                   // chain right before this one does; 3 before every step a transient Lexicon repeats the chain so far and dies
       std::string text() const
       {
          std::string s = std::string(type_names[t]) + " <-";
          for (int m : masks) s += " " + mask_text(m);
          s += direct_first ? " [direct first]" : " [direct last]";
-         if (noise) s += " [noise]";
+         if (noise == 1) s += " [noise]";
+         if (noise == 2) s += " [a second Lexicon makes each request first]";
+         if (noise == 3) s += " [a transient Lexicon repeats the chain so far before each step]";
          return s;
       }
       std::vector<long long> ops() const
@@ -126,8 +130,17 @@ namespace {
       empty_refused(w, base, h);
       const ipr::Type* cur = &base;
       int uni = 0;
+      std::unique_ptr<World> second;
+      const ipr::Type* second_cur = nullptr;
+      if (h.noise == 2) { second = std::make_unique<World>(); second_cur = second->T[h.t]; }
       for (std::size_t i = 0; i < h.masks.size(); ++i) {
-         if (h.noise) {
+         if (h.noise == 2) { second_cur = &second->lex.get_qualified(second->q[h.masks[i]], *second_cur); rep.count("transitions"); }
+         if (h.noise == 3) {
+            World t;
+            const ipr::Type* c = t.T[h.t];
+            for (std::size_t j = 0; j <= i; ++j) { c = &t.lex.get_qualified(t.q[h.masks[j]], *c); rep.count("transitions"); }
+         }
+         if (h.noise == 1) {
             (void) w.lex.get_pointer(*cur);
             (void) w.lex.get_qualified(w.q[h.masks[i]], *w.T[(h.t + 1) % NT]);
             (void) w.lex.get_reference(w.lex.get_qualified(w.q[7], *w.T[(h.t + 2) % NT]));
@@ -210,7 +223,7 @@ namespace {
          while (true) {
             for (int t = 0; t < NT; ++t)
                for (int df = 0; df < 2; ++df)
-                  for (int nz = 0; nz < 2; ++nz)
+                  for (int nz = 0; nz < 4; ++nz)
                      if (opt.mine(idx++)) run(Hist{ t, m, df, nz });
             int i = d - 1;
             while (i >= 0 and ++m[i] == 8) m[i--] = 1;
